@@ -467,3 +467,133 @@ def replay(prop_id, path):
         print(f"VIOLATION property={prop_id} replay={path}")
         return 1
     return 0
+
+
+# --------------------------------------------------------------------------
+# structural snapshots (C09, C12, C14)
+# --------------------------------------------------------------------------
+def snap_value(v):
+    """Nested python structure with SInt/num leaves."""
+    import numpy as np
+
+    if isinstance(v, np.ndarray):
+        return ("arr", list(v.shape), [snap_value(x) for x in v.ravel().tolist()])
+    if isinstance(v, (list, tuple)):
+        return [snap_value(x) for x in v]
+    if isinstance(v, dict):
+        return {str(k): snap_value(x) for k, x in v.items()}
+    if hasattr(v, "operation_id") and hasattr(v, "machines"):
+        return ("op", v.operation_id)
+    if hasattr(v, "operation") and hasattr(v, "start_time"):
+        return ("sop", v.operation.operation_id, v.start_time, v.machine_id)
+    if isinstance(v, (np.integer,)):
+        return int(v)
+    if isinstance(v, (np.floating,)):
+        return float(v)
+    if isinstance(v, np.bool_):
+        return bool(v)
+    return v
+
+
+def snap_dispatcher(disp, queries=True):
+    s = dict(
+        lists=[[(so.operation.operation_id, so.start_time, so.machine_id) for so in l] for l in disp.schedule.schedule],
+        mnat=list(disp.machine_next_available_time),
+        jnat=list(disp.job_next_available_time),
+        jnoi=list(disp.job_next_operation_index),
+        nsub=len(disp.subscribers),
+        metadata=dict(disp.schedule.metadata),
+    )
+    if queries:
+        s["q"] = dict(
+            scheduled=sorted(o.operation_id for o in disp.scheduled_operations()),
+            unscheduled=sorted(o.operation_id for o in disp.unscheduled_operations()),
+            ready=[o.operation_id for o in disp.raw_ready_operations()],
+            available=[o.operation_id for o in disp.available_operations()],
+            now=disp.current_time(),
+            makespan=disp.schedule.makespan(),
+            complete=disp.schedule.is_complete(),
+        )
+    return s
+
+
+def snap_observer(o):
+    """Public state of a built-in observer."""
+    name = type(o).__name__
+    out = {"type": name}
+    if hasattr(o, "history"):
+        out["history"] = snap_value(list(o.history))
+    if hasattr(o, "unscheduled_operations_per_job"):
+        out["unscheduled"] = [[op.operation_id for op in dq] for dq in o.unscheduled_operations_per_job]
+    if hasattr(o, "rewards"):
+        out["rewards"] = list(o.rewards)
+        if hasattr(o, "current_makespan"):
+            out["current_makespan"] = o.current_makespan
+    if hasattr(o, "features"):
+        out["features"] = {ft.value: snap_value(arr) for ft, arr in o.features.items()}
+        if hasattr(o, "column_names"):
+            out["column_names"] = {k.value: list(v) for k, v in o.column_names.items()}
+    if hasattr(o, "job_shop_graph"):
+        out["graph"] = snap_graph(o.job_shop_graph)
+    if hasattr(o, "log"):
+        out["log"] = snap_value(list(o.log))
+    return out
+
+
+def snap_graph(g):
+    return dict(
+        nodes=sorted(g.graph.nodes()),
+        edges=sorted((u, v, str(d.get("type"))) for u, v, d in g.graph.edges(data=True)),
+        removed=list(g.removed_nodes),
+    )
+
+
+def snap_equal(a, b, path=""):
+    """Returns (concrete_difference or None, list of symbolic equalities)."""
+    conds = []
+
+    def rec(x, y, p):
+        if isinstance(x, (E.SInt, E.SBool)) or isinstance(y, (E.SInt, E.SBool)):
+            if x is y:
+                return None
+            if isinstance(x, (list, tuple, dict, str)) or isinstance(y, (list, tuple, dict, str)):
+                return f"{p}: {x!r} vs {y!r}"
+            conds.append((E.veq(x, y), p))
+            return None
+        if isinstance(x, dict) and isinstance(y, dict):
+            if set(x) != set(y):
+                return f"{p}: keys {sorted(x)} vs {sorted(y)}"
+            for k in x:
+                r = rec(x[k], y[k], f"{p}/{k}")
+                if r:
+                    return r
+            return None
+        if isinstance(x, (list, tuple)) and isinstance(y, (list, tuple)):
+            if len(x) != len(y):
+                return f"{p}: length {len(x)} vs {len(y)}: {x!r} vs {y!r}"
+            for i, (u, v) in enumerate(zip(x, y)):
+                r = rec(u, v, f"{p}[{i}]")
+                if r:
+                    return r
+            return None
+        if isinstance(x, float) and isinstance(y, float) and x != x and y != y:
+            return None
+        if isinstance(x, (int, float)) and isinstance(y, (int, float)) and not isinstance(x, bool) and not isinstance(y, bool):
+            return None if x == y else f"{p}: {x!r} vs {y!r}"
+        if x != y:
+            return f"{p}: {x!r} vs {y!r}"
+        return None
+
+    diff = rec(a, b, path)
+    return diff, conds
+
+
+def prove_snap_equal(eng, a, b, key, detail=""):
+    diff, conds = snap_equal(a, b)
+    if diff is not None:
+        eng.fail(key, f"{detail} {diff}"[:400])
+        return False
+    if conds:
+        return eng.prove(E.vand([c for c, _ in conds]), key, detail)
+    eng.prove(True, key)
+    return True
